@@ -52,4 +52,6 @@ macro_rules! harness {
 
 pub mod c02;
 pub mod c03;
+pub mod c04;
+pub mod c05;
 pub mod c06;
